@@ -259,6 +259,7 @@ def judge(ctx, forwarded, exp, pats, path, case):
 
 def monitor_route(ctx, metafile):
     nontrivial = set()
+    partial = {}
     with open(metafile) as f:
         for line in f:
             t = line.rstrip("\n").split("\t")
@@ -287,10 +288,19 @@ def monitor_route(ctx, metafile):
                 nav = None if (odd and not html and method == "GET") else (method == "GET" and html)
             elif mode == "navigate" and dest == "document":
                 nav = method == "GET"
-            elif mode == "navigate" or dest == "document":
-                nav = None            # partial fetch metadata: the text does not say
+            elif mode != "" and dest != "":
+                nav = False           # complete fetch metadata that does not say navigate + document
+            elif (mode or dest) in ("navigate", "document"):
+                # exactly one fetch-metadata header, and it carries the navigation value: the text does not say whether
+                # that is "recognisably" a top-level navigation. What the text does exclude: deciding it by the Accept
+                # header (that is the test for browsers that send NO fetch metadata) - checked below as a pair property
+                nav = None
             else:
+                # exactly one fetch-metadata header and it names something else (cors, same-origin, empty, iframe ...):
+                # the browser itself says this is not a top-level navigation, whatever the Accept header lists
                 nav = False
+            if (mode == "") != (dest == ""):
+                partial.setdefault((tuple(pats), tuple(ings), method, target, mode, dest, referer), []).append((html, code, case))
             u = urlsplit(loc)
             redirect = parse_qs(u.query, keep_blank_values=True).get("redirect", [None])[0]
             if not u.path.endswith("/oauth2/login") or u.scheme or u.netloc:
@@ -305,6 +315,14 @@ def monitor_route(ctx, metafile):
                     ctx.violation("c12-wrong-status", "non-navigation request not answered with 401", case)
                 if referer and redirect != referer:
                     ctx.violation("c12-wrong-return-url", "login URL of a non-navigation request does not name the referring page", dict(case, redirect=redirect))
+    # a request that carries fetch metadata (one of the two headers) is classified by that metadata: the same request with
+    # and without text/html in its Accept header must get the same kind of answer
+    for key, obs in partial.items():
+        codes = {c for _, c, _ in obs}
+        if len(codes) > 1 and len({h for h, _, _ in obs}) > 1:
+            case = next(cs for h, _, cs in obs if h)
+            ctx.violation("c12-wrong-status", "a request carrying fetch metadata is answered 302 or 401 depending on its Accept header "
+                          "(the Accept test is for requests without any fetch metadata)", dict(case, statuses_by_accept_html=sorted((h, c) for h, c, _ in obs)))
     return len(nontrivial)
 
 
@@ -359,7 +377,7 @@ def run(ctx):
                 "patterns over {a,/,*} x names over {a,/} up to length 7 (8), meta-character patterns ('?','[',']','\\\\','-','!') exhaustive to "
                 "length 3 (4) and random, structured random incl. multi-byte UTF-8, path.Clean over {a,/,.} to length 7 (9); "
                 "needs: random configurations from a pattern pool x request sequences with repeats; route: 5 configurations x fixed odd paths x "
-                "{GET,POST,HEAD} x 7 header combinations + random paths. distinct_nontrivial counts distinct (decision, expected, dot-segment, "
+                "{GET,POST,HEAD} x 7 header combinations (+ on 6 targets the whole lattice Sec-Fetch-Mode {absent,navigate,cors,same-origin} x Sec-Fetch-Dest {absent,document,empty,iframe} x Accept {text/html, json, html+wildcard, none}) + random paths. distinct_nontrivial counts distinct (decision, expected, dot-segment, "
                 "encoding, method, header, status) signatures")
     ctx.assumptions += [
         "strings are compared bytewise in the model; Go's doublestar compares runes: identical for valid UTF-8 (invalid bytes all decode to U+FFFD in Go) - the drivers use ASCII and valid UTF-8 only",
@@ -367,4 +385,5 @@ def run(ctx):
         "r.URL.String() and r.URL.Path are inputs of the model (net/url parsing/escaping is not modelled); ingress paths are clean ASCII paths",
         "the model's clean_first=true places path.Clean after the leading-slash repair in NeedsLogin (flag autologin_clean in lib/code_flags.json)",
         "monitor verdicts are drawn only where all readings of the text (doubled slashes kept or merged, one or all trailing slashes removed) give the same expectation",
+        "navigation: both fetch-metadata headers absent -> decided by Accept; both present -> navigate+document; exactly one present with a non-navigation value -> not a navigation (401 expected); exactly one present carrying navigate / document -> no verdict on the status, only that it may not depend on the Accept header",
     ]
